@@ -36,6 +36,21 @@ def raise_(cls: type, *args: Any) -> None:
     raise PyRaise(SExc(cls, tuple(args)))
 
 
+def user_cls(S: Any) -> type:
+    """The class of 'whatever user code raises' on this path.  A contract widens it from the single stand-in UserError
+    by setting S.ghost["__user_exc_classes__"] (e.g. to include the classes the serve loop itself treats as
+    connection-ending); the class is drawn once per path, at the first user raise."""
+    opts = S.ghost.get("__user_exc_classes__") or [UserError]
+    if len(opts) == 1:
+        return opts[0]
+    k = S.ghost.get("__user_exc_choice__")
+    if k is None:
+        k = S.choose(len(opts))
+        S.ghost["__user_exc_choice__"] = k
+        S.inputs["user_exception_class"] = opts[k].__name__
+    return opts[k]
+
+
 class World:
     """Installs the handlers on S and keeps the knobs a unit forks over."""
 
